@@ -275,5 +275,6 @@ def clamp(prog: Program, rep) -> None:
                                 clamps[side] = True
         rep.check(clamps["lower"] and clamps["upper"], "accepted-step-in-box", m.qualname, short(xs.stmt),
                   f"on every path the point stored as the new x was clamped on both sides against the problem's var_lb / var_ub before (found {clamps})", m.loc(xs.stmt))
-        rep.check(base is not None and "self.orig_iterate.x - dx" in U(base), "accepted-step-in-box", m.qualname, "xn = iterate.x - dx",
+        dxp = [p_ for p_ in m.params if p_ != "self"][0]
+        rep.check(base is not None and f"self.orig_iterate.x - {dxp}" in U(base), "accepted-step-in-box", m.qualname, "xn = iterate.x - dx",
                   "the clamped point is x - dx of the originating iterate", m.loc())
